@@ -237,6 +237,10 @@ func c16Gen(seed int64, idx int) *c16Case {
 				probe(strings.Repeat("aé日😀", 4)[:0] + string([]rune(strings.Repeat("aé日😀", 4))[:n]))
 			}
 		}
+		// characters at the borders of the YANG character set
+		for _, s := range []string{"a\x08c", "a\x00c", "\x1f", "a\tc", "a\rc", "a\x7fc", "a\ufffec", "a\uffffc", "a\ufdd0c", "a\ufdcfc", "a\ufffdc", "a\U0001fffec", "a\U0001fffdc", "a\U0010ffffc", "a\ue000c"} {
+			probe(s)
+		}
 		for _, s := range []string{"abc", "abbbc", "ab", "abcd", "xabc", "a\nc", "axc", "x", "yz", "xyzx", "xy", "ééé", "日日", "日a", "ABC", "a1", "", " ", "abc ", "\xff",
 			"ab!", "!yz", "abyz", "xxq", "qc", "a", "c", "ayz", "abx"} {
 			probe(s)
@@ -487,6 +491,12 @@ func c16ViolatesOnly(c *c16Case, pr string) bool {
 		}
 		return yang.BuiltinRange("decimal64", 64)[0].Contains(v) && sigDigits(pr) <= 15
 	case "string":
+		for _, r := range pr {
+			if !yang.IsYangChar(r) {
+				// not a string at all: neither restriction is what is violated
+				return false
+			}
+		}
 		lenOK := c.model.Lens == nil || (&yang.RType{Kind: "string", Lens: c.model.Lens}).Accepts(pr)
 		patOK := (&yang.RType{Kind: "string", Pats: c.model.Pats}).Accepts(pr)
 		if c.msgOn == "length" {
